@@ -1575,7 +1575,10 @@ impl Canon {
         // an extra token that the model never prints)
         let accessor_ttl = rr.get_ttl();
         let accessor_class = rr.get_class().map(|c| c as u16);
-        let accessors_agree = accessor_ttl == ttl && accessor_class == class;
+        // the struct-level `ToType::to_type()` accessor must name the TYPE of the variant the record was decoded into
+        let accessor_type = rr_to_type(rr) as u16;
+        let accessors_agree =
+            accessor_ttl == ttl && accessor_class == class && accessor_type == type_;
         let mut out = format!(
             "RR {} {} {} {} {}",
             type_,
@@ -1599,8 +1602,8 @@ impl Canon {
         }
         if !accessors_agree {
             out.push_str(&format!(
-                " ACCESSOR-MISMATCH get_ttl={:?} get_class={:?}",
-                accessor_ttl, accessor_class
+                " ACCESSOR-MISMATCH get_ttl={:?} get_class={:?} to_type={}",
+                accessor_ttl, accessor_class, accessor_type
             ));
         }
         out
@@ -1630,5 +1633,58 @@ impl Canon {
             out.push_str(&self.rr(rr));
         }
         out
+    }
+}
+
+/// `ToType::to_type()` of the struct inside each `RR` variant (C03: the type accessor agrees with the wire header).
+pub fn rr_to_type(rr: &RR) -> Type {
+    use dns_message_parser::rr::ToType;
+    match rr {
+        RR::A(r) => r.to_type(),
+        RR::NS(r) => r.to_type(),
+        RR::MD(r) => r.to_type(),
+        RR::MF(r) => r.to_type(),
+        RR::CNAME(r) => r.to_type(),
+        RR::SOA(r) => r.to_type(),
+        RR::MB(r) => r.to_type(),
+        RR::MG(r) => r.to_type(),
+        RR::MR(r) => r.to_type(),
+        RR::NULL(r) => r.to_type(),
+        RR::WKS(r) => r.to_type(),
+        RR::PTR(r) => r.to_type(),
+        RR::HINFO(r) => r.to_type(),
+        RR::MINFO(r) => r.to_type(),
+        RR::MX(r) => r.to_type(),
+        RR::TXT(r) => r.to_type(),
+        RR::RP(r) => r.to_type(),
+        RR::AFSDB(r) => r.to_type(),
+        RR::X25(r) => r.to_type(),
+        RR::ISDN(r) => r.to_type(),
+        RR::RT(r) => r.to_type(),
+        RR::NSAP(r) => r.to_type(),
+        RR::PX(r) => r.to_type(),
+        RR::GPOS(r) => r.to_type(),
+        RR::AAAA(r) => r.to_type(),
+        RR::LOC(r) => r.to_type(),
+        RR::NIMLOC(r) => r.to_type(),
+        RR::SRV(r) => r.to_type(),
+        RR::KX(r) => r.to_type(),
+        RR::DNAME(r) => r.to_type(),
+        RR::OPT(r) => r.to_type(),
+        RR::APL(r) => r.to_type(),
+        RR::SSHFP(r) => r.to_type(),
+        RR::URI(r) => r.to_type(),
+        RR::EID(r) => r.to_type(),
+        RR::NID(r) => r.to_type(),
+        RR::L32(r) => r.to_type(),
+        RR::L64(r) => r.to_type(),
+        RR::LP(r) => r.to_type(),
+        RR::EUI48(_) => Type::EUI48, // no `ToType` impl in the crate
+        RR::EUI64(_) => Type::EUI64, // no `ToType` impl in the crate
+        RR::DS(_) => Type::DS, // no `ToType` impl in the crate
+        RR::DNSKEY(_) => Type::DNSKEY, // no `ToType` impl in the crate
+        RR::CAA(r) => r.to_type(),
+        RR::SVCB(r) => r.to_type(),
+        RR::HTTPS(r) => r.to_type(),
     }
 }
